@@ -48,9 +48,23 @@ extern int (*volatile myth_verif_clock_fn)(struct timespec *);
 
 /* trylock must not block: flag per worker (a thread cannot leave its worker without a switch) */
 static volatile int in_try[MV_MAXP];
+/* "threads blocked on a mutex do not occupy a worker", polling flavour: a timedlock that finds the mutex busy and
+   has nothing in its own run queue must offer the worker to the rest of the program, i.e. try to steal, before it
+   polls again (armed at the MVS_TIMEDLOCK hook, which sits right before the yield) */
+static int tl_armed[MV_MAXP]; static long st_tl_polls, st_tl_polls_empty;
 static void observer(int id, int me) {
   if (me >= 0 && in_try[me] && (id == MVP_BLOCK_A || id == MVP_YIELD_A || id == MVP_JOIN_B))
     mt_fail("trylock switched the calling thread away (hook %d reached inside myth_mutex_trylock)", id);
+  if (me < 0 || me >= MV_MAXP) return;
+  if (id == MVP_STEAL) tl_armed[me] = 0;
+  else if (id == MVP_MUTEX_TRY_A && tl_armed[me])
+    mt_fail("a thread waiting in myth_mutex_timedlock polled the mutex again without having tried to steal, although the run queue of its worker %d was empty: it keeps the worker to itself while runnable threads may sit in other queues", me);
+}
+static void spin_obs(int id, int me) {
+  if (id != MVS_TIMEDLOCK || me < 0 || me >= MV_MAXP) return;
+  st_tl_polls++;
+  tl_armed[me] = (mt_queue_len(me) == 0);
+  if (tl_armed[me]) st_tl_polls_empty++;
 }
 
 /* returns 1 if acquired */
@@ -105,6 +119,11 @@ static void release(int th, int m) {
   mv_progress();
 }
 
+/* an occupier never yields and never blocks: it keeps its worker until every script thread has finished.
+   With O <= W-1 of them the program still terminates, provided threads blocked on a mutex (lock, or
+   timedlock with an unreachable deadline) leave their worker to the others */
+static volatile int finished_threads; static int n_occupiers;
+static void * occupier(void * a) { (void)a; while (finished_threads < P.T) mv_spin(US_GATE); return 0; }
 static void * body(void * a) {
   int th = (int)(intptr_t)a;
   for (int s = 0; s < P.nsec[th]; s++) {
@@ -121,6 +140,7 @@ static void * body(void * a) {
     do_yields(sc->yout);
     op_done();
   }
+  __sync_fetch_and_add(&finished_threads, 1);
   return 0;
 }
 
@@ -149,14 +169,27 @@ void scen_c04(mt_case * c) {
     }
     mt_desc("\n");
   }
+  /* only in programs whose waits are all blocking or bounded (lock, give-up trylock, past / near deadlines): a
+     polling wait shares its worker fairly with local threads only, so two pollers may legitimately starve a
+     holder that sits in an occupied worker's queue */
+  n_occupiers = (e.W >= 2 && !used[A_TRY_RETRY] && !used[A_TIMED_FAR] && rd_below(r, 2) == 0) ? rd_range(r, 1, e.W - 1 > 3 ? 3 : e.W - 1) : 0;
+  int occ_pos[4] = { 0, 0, 0, 0 };
+  for (int i = 0; i < n_occupiers; i++) occ_pos[i] = (int)rd_below(r, (unsigned)P.T + 1);
+  if (n_occupiers) mt_desc(" %d occupier thread(s), created after %d/%d/%d script threads: each keeps a worker busy, without yielding, until all script threads have finished\n", n_occupiers, occ_pos[0], occ_pos[1], occ_pos[2]);
   mt_hash(c->prog.p, c->prog.pos);
   myth_verif_clock_fn = vclock;
   mt_lib_start(c, &e, 0);
-  mv_set_point_observer(observer);
+  mv_set_point_observer(observer); mv_set_spin_observer(spin_obs);
   for (int m = 0; m < P.M; m++) myth_mutex_init(&mtx[m], 0);
-  myth_thread_t th[16];
-  for (int t = 0; t < P.T; t++) myth_create_ex(&th[t], 0, body, (void *)(intptr_t)t);
+  myth_thread_t th[16], oc[4];
+  /* child first: an occupier takes over the creating worker; the creator and whatever else sits in that worker's
+     run queue (threads that yielded there, possibly holding a mutex) can only go on by being stolen */
+  for (int t = 0; t <= P.T; t++) {
+    for (int i = 0; i < n_occupiers; i++) if (occ_pos[i] == t) myth_create_ex(&oc[i], 0, occupier, 0);
+    if (t < P.T) myth_create_ex(&th[t], 0, body, (void *)(intptr_t)t);
+  }
   for (int t = 0; t < P.T; t++) { myth_join(th[t], 0); mv_progress(); }
+  for (int i = 0; i < n_occupiers; i++) { myth_join(oc[i], 0); mv_progress(); }
   mt_lib_finish();
 
   for (int m = 0; m < P.M; m++) {
@@ -196,7 +229,8 @@ void scen_c04(mt_case * c) {
   if (blocked_cnt) mt_label("blocked_on_sleep_queue");
   if (migrated) mt_label("resumed_on_other_worker");
   if (races) mt_label("unlock_raced_announced_locker");
-  if (fails) mt_label("try_failed");
+  if (fails) mt_label("try_failed"); if (st_tl_polls_empty) mt_label("timedlock_poll_empty_queue"); mt_stat("timedlock_polls", st_tl_polls);
   if (e.W == 1) mt_label("W1");
+  if (n_occupiers) mt_label("occupied_workers"); if (n_occupiers && n_occupiers == e.W - 1) mt_label("one_free_worker");
   mt_nontrivial((blocked_cnt > 0 && migrated > 0) || races > 0);
 }
